@@ -594,17 +594,23 @@ def evalClause (qk : Quirks) (g : Graph) (first : Bool) (envs : List Env) : Clau
       let kept ← sts.filterE (fun st => match wh with
         | none => pure true
         | some w => do let v ← evalExpr qk g st.env false w; truthy v)
-      let multiStep : Option PatternPart := match parts with
-        | [.mk _ false false fst steps] =>
-          if steps.length ≥ 2 && steps.all (fun s => s.1.range.isNone) then some (.mk none false false fst steps.dropLast) else none
-        | _ => none
-      match optional && qk.optionalOnlyLastStepOuter && !(first && qk.optionalFirstIsMatch), multiStep with
-      | true, some prefixPart => do
-        -- deviation switch: the emitted SQL inner-joins all steps but the last and left-outer-joins only the last one
-        let pres ← matchParts qk g [⟨env, []⟩] [prefixPart]
+      -- deviation switch `optionalOnlyLastStepOuter`: the emitted SQL inner-joins everything but the LAST step of the LAST pattern part
+      -- (or, when that part has a single step / is a lone node, everything but the last part) and left-outer-joins only that
+      let prefixParts : Option (List PatternPart) := match parts.reverse with
+        | [] => none
+        | last :: revInit =>
+          match last with
+          | .mk _ false false fst steps =>
+            if steps.length ≥ 2 && steps.all (fun s => s.1.range.isNone) then some (revInit.reverse ++ [.mk none false false fst steps.dropLast])
+            else if !revInit.isEmpty then some revInit.reverse
+            else none
+          | _ => none
+      match optional && qk.optionalOnlyLastStepOuter && !(first && qk.optionalFirstIsMatch), prefixParts with
+      | true, some pre => do
+        let pres ← matchParts qk g [⟨env, []⟩] pre
         let fresh := (parts.flatMap patVars).eraseDups
         pure (pres.flatMap (fun p =>
-          let ext := kept.filter (fun st => st.used.drop 1 == p.used && p.env.all (fun b => match st.env.lookup b.1 with | some x => cEquiv x b.2 | none => false))
+          let ext := kept.filter (fun st => p.used.isSuffixOf st.used && p.env.all (fun b => match st.env.lookup b.1 with | some x => cEquiv x b.2 | none => false))
           if ext.isEmpty then [(fresh.filter (fun v => (p.env.lookup v).isNone)).map (fun v => (v, CVal.null)) ++ p.env]
           else ext.map (·.env)))
       | _, _ =>
@@ -623,7 +629,11 @@ def evalClause (qk : Quirks) (g : Graph) (first : Bool) (envs : List Env) : Clau
 
 def evalClauses (qk : Quirks) (g : Graph) (first : Bool) : List Env → List Clause → M (List Env)
   | envs, [] => .ok envs
-  | envs, c :: cs => do let e ← evalClause qk g first envs c; evalClauses qk g false e cs
+  | envs, c :: cs => do
+    let e ← evalClause qk g first envs c
+    -- (only the deviation switch `optionalFirstIsMatch` reads `first`: an UNWIND produces no frame in the emitted SQL, so a following
+    -- OPTIONAL MATCH is still "the first MATCH")
+    evalClauses qk g (first && (match c with | .unwind _ _ => true | _ => false)) e cs
 
 def aggCall? : Expr → Option (String × Bool × List Expr)
   | .fn name d args => if isAggregate name then some (name, d, args) else none
